@@ -174,6 +174,7 @@ func main() {
 	tier := drv.Tier(*tierF)
 	r := seq.New("C04", tier, "exploration")
 	defer r.CrashGuard()
+	defer r.Watch()()
 	r.Rule = "exhaustive finite product: (logger level, global level, event level, sampler behaviour) through WithLevel and through each named level method; all 256 level text forms; every exported *Event method (reflection) on a filtered event singly and in ordered pairs; Panic/Fatal filtered and unfiltered (Fatal in re-executed child processes); distinct = distinct (configuration, written?, level seen, sampler calls); non-trivial = the event passed at least one of the two level tests but not necessarily both"
 	r.Assumptions = []string{"event levels -128..6 and Disabled(7), as in the statement", "Fatal is observed through the exit status of a re-executed copy of this binary"}
 
